@@ -17,6 +17,7 @@ from __future__ import annotations
 import ast
 import copy
 import itertools
+import json
 from collections import Counter
 from pathlib import Path
 
@@ -257,16 +258,55 @@ def _eval(spec):
     from hugr.qsystem.result import QsysResult, QsysShot
 
     shots = [[(t, v) for t, v in sh] for sh in spec["shots"]]
+    # every way of building the same shots / results (chosen by the spec, so that a replay makes the same calls):
+    # constructor from a list, from a one-shot iterator, entry by entry with `append`; results from raw entry
+    # lists, from QsysShot objects, from a generator
+    style = len(json.dumps(spec["shots"])) % 3
+
+    def mk_shot(sh):
+        if style == 0:
+            return QsysShot(sh)
+        if style == 1:
+            return QsysShot(iter(sh))
+        o = QsysShot()
+        for t, v in sh:
+            o.append(t, v)
+        return o
+
+    def mk_result():
+        if style == 0:
+            return QsysResult(shots)
+        if style == 1:
+            return QsysResult(mk_shot(sh) for sh in shots)
+        return QsysResult([mk_shot(sh) for sh in shots])
+
     r = {
-        "bits": [_call(QsysShot(sh).to_register_bits) for sh in shots],
-        "collate": [_call(QsysShot(sh).collate_tags) for sh in shots],
+        "bits": [_call(mk_shot(sh).to_register_bits) for sh in shots],
+        "collate": [_call(mk_shot(sh).collate_tags) for sh in shots],
         "bitstrings": [],
         "counts": [],
     }
     for sn, sl in FLAGS:
-        r["bitstrings"].append(_call(QsysResult(shots).register_bitstrings, strict_names=sn, strict_lengths=sl))
-        r["counts"].append(_call(QsysResult(shots).register_counts, strict_names=sn, strict_lengths=sl))
-    r["collated"] = _call(QsysResult(shots).collated_counts)
+        r["bitstrings"].append(_call(mk_result().register_bitstrings, strict_names=sn, strict_lengths=sl))
+        r["counts"].append(_call(mk_result().register_counts, strict_names=sn, strict_lengths=sl))
+    r["collated"] = _call(mk_result().collated_counts)
+    # the per-shot views agree with the per-result ones and with the entries
+    r["views"] = []
+    try:
+        res = mk_result()
+        if [list(x.entries) for x in res.results] != shots:
+            r["views"].append("results-do-not-hold-the-given-entries")
+        if res.collated_shots() != [mk_shot(sh).collate_tags() for sh in shots]:
+            r["views"].append("collated_shots-differs-from-per-shot-collate_tags")
+        for sh in shots:
+            try:
+                if mk_shot(sh).as_dict() != dict(sh):
+                    r["views"].append("as_dict-not-last-value-per-tag")
+                    break
+            except TypeError:
+                pass
+    except Exception as e:  # noqa: BLE001
+        r["views"].append("views-raise:" + type(e).__name__)
     # the same shot object converted, its entries edited in place (same length), converted again:
     # the property speaks about the entries the shot has at the time of the call
     r["edited"] = []
@@ -425,6 +465,9 @@ def oracle(spec):
         resc = r["collate"][i]
         if not _is_ok(resc) or resc[1] != ref_collate(sh):
             fails.append(Failure("QsysShot.collate_tags", "collate-differs", f"shot {i}: {resc[1]!r}"))
+
+    for v in r.get("views", []):
+        fails.append(Failure("QsysResult/QsysShot views", v, ""))
 
     # -- result level (defined in terms of the per-shot strings: only judged when those are right,
     #    a wrong per-shot conversion is already reported above)
